@@ -127,7 +127,8 @@ example :
 /-! ### (P) and (N): parameters and normalised URL -/
 
 /-- (P) Outside F13c: every extracted `(name, value)` is `{name}` in the applied policy's pattern at a
-    position where the request URL has the segment `value`. -/
+    position where the request URL has the segment `value`, and no parameter position is dropped: the
+    reported map contains every binding of `expectedParams` (in fact it IS that map). -/
 theorem params_are_segments_partial (es : List Endpoint) (g : Globals) (pt : PTree) (m : String) (u : List Part)
     (hbuild : build es = .ok pt) (hF13c : boundaryMix es u = false) :
     paramsOkA es m u (observe pt g m u) = true := by
@@ -138,13 +139,17 @@ theorem params_are_segments_partial (es : List Endpoint) (g : Globals) (pt : PTr
   obtain ⟨_, hpar⟩ := exact_of_inv hinv u hF13c hl hq
   have hsp : (observe pt g m u).params = bindParams [] q u := by
     simp only [observe, select_some hl]; exact hpar
-  simp only [paramsOk, hsp, hep]
-  rw [List.all_eq_true]
-  intro ⟨k, v⟩ hkv
-  rcases bindParams_mem _ _ _ _ _ hkv with h | ⟨pu, hpu, h1, h2⟩
-  · simp at h
-  · rw [List.any_eq_true]
-    exact ⟨pu, hpu, by simp [h1, h2]⟩
+  simp only [paramsOk, hsp, hep, expectedParams, expectedFrom_eq, Bool.and_eq_true]
+  constructor
+  · rw [List.all_eq_true]
+    intro ⟨k, v⟩ hkv
+    rcases bindParams_mem _ _ _ _ _ hkv with h | ⟨pu, hpu, h1, h2⟩
+    · simp at h
+    · rw [List.any_eq_true]
+      exact ⟨pu, hpu, by simp [h1, h2]⟩
+  · rw [List.all_eq_true]
+    intro kv hkv
+    simpa using hkv
 
 /-- (N) Outside F13c: the reported normalised URL is the applied policy's declared pattern (which matches
     the request, by `sound_partial`). -/
